@@ -74,6 +74,10 @@ pub struct Outcome {
     pub harness_error: Option<String>,
     /// (group label, item hash): distinct items are counted per group
     pub groups: Vec<(String, u64)>,
+    /// (case-set hash, number of distinct non-trivial cases in it): for
+    /// families that evaluate many cases per run, so that the distinct count
+    /// does not need one set entry per case
+    pub weighted: Vec<(u64, u64)>,
 }
 
 impl Outcome {
@@ -91,6 +95,7 @@ impl Outcome {
             units: 1,
             harness_error: None,
             groups: Vec::new(),
+            weighted: Vec::new(),
         }
     }
 }
